@@ -10,10 +10,10 @@ FINDING_KEY = "multiset_delta/push-placement/does-not-compile"
 class C22(dfir.DfirSpec):
     tag = "C22"
     props_vo = "theories/Props/C22.vo"
-    theorems = ["C22_perturbation_operators", "C22_identity_insert"]
+    theorems = ["C22_perturbation_operators", "C22_identity_insert", "C22_pull_push", "C22_realisation_is_model"]
     modes = ("ticks", "avail")
     level = "other"
-    explanation = "Not category proof: the operator models are list functions of a tick's complete inputs and do not model the pull and push realisations separately, so theorem (i) of the design (op_tick_pull = op_tick_push) and theorem (ii) (handoff split / identity insertion preserve run_tick on the partitioned program) are not proved; compile/fail agreement (iii) is only probed. Proved: C22_perturbation_operators, C22_identity_insert."
+    explanation = 'Not category proof: theorem (ii) of the design (handoff split / identity insertion preserve run_tick on the partitioned program, i.e. interp_partitioned = denote_flat) is not proved; compile/fail agreement (iii) is only probed. Proved: (i) pull realisation = push realisation for fold, persist, fold_keyed, sort_by_key (C22_pull_push, models in Dfir/ModelRealise.v, tied to the list-level operator model by C22_realisation_is_model); the single-closure operators (map, filter, filter_map, flat_map, inspect, unique, enumerate, multiset_delta, scan) hand one closure to the pull or the push combinator, whose agreement is C11/C12; plus C22_perturbation_operators, C22_identity_insert.'
     assumptions = [
         "the operator models do not distinguish the pull and push realisations of a write_fn; equality of the two "
         "realisations and of different partitions is tested (variant against variant, and each variant against the "
